@@ -104,7 +104,11 @@ def lifecycle_set_follows(ck, C):
             ok_e, err_e, _ = T.result_split(dunreg, t.bb)
             starts = [x for _, x in ok_e] if ok_e else [t.to]
             flag_false = []
-            for sw in T.switches_on_expr(dunreg, lambda e: (e[0] == "place" and "needs_additional_lifecycle_events" in e[1]) or (e[0] == "const" and "NEEDS_EXTRA_LIFECYCLE_EVENTS" in str(e[1]))):
+            # the opt-in: a bool field of DispatcherInner that nothing but the constructor writes (it holds
+            # S::NEEDS_EXTRA_LIFECYCLE_EVENTS), whatever it is called
+            dadt = next((a for pth, a in f.adts.items() if pth.endswith("::DispatcherInner") or pth == "sources::DispatcherInner"), None)
+            optin = [fl["name"] for v_ in (dadt or {}).get("variants", []) for fl in v_.get("fields", []) if fl.get("ty") is not None and f.types[fl["ty"]]["s"] == "bool" and not any(T.stores_to_field(b_, fl["name"]) for b_ in f.bodies.values())]
+            for sw in T.switches_on_expr(dunreg, lambda e: (e[0] == "place" and any("." + n_ in e[1] for n_ in optin)) or (e[0] == "const" and "NEEDS_EXTRA_LIFECYCLE_EVENTS" in str(e[1]))):
                 flag_false += T.edges_of_value(dunreg, sw, False)
             from props import C07 as _C07u
 
@@ -328,7 +332,14 @@ def run(ck):
     empt = [cs for cs in T.calls(b, name=("clear", "truncate", "drain", "take")) if T.path_has(b, cs.args[0], SE)]
     first_push = [cs for body, cs in pushes if body.key == b.key]
     clear_first = [e for e in empt if all(b.dominates(e.bb, p.bb) for p in first_push) and e.bb not in r1[1]]
-    if clear_first:
+    # .. and every *reader* of the queue in this dispatch (the drain of the batch loop, an `is_empty()` that decides the
+    # timeout): a leftover that can be read on a path around the clearing site is delivered - or forces a zero wait -
+    # in a later dispatch although nothing queued it there
+    readers = [cs for cs in b.calls() if not b.is_cleanup(cs.bb) and cs.args and T.path_has(b, cs.args[0], SE) and cs.name not in ("push", "clear", "truncate") and cs.bb not in {e.bb for e in clear_first}]
+    stray = [cs for cs in readers if clear_first and not any(b.dominates(e.bb, cs.bb) for e in clear_first)]
+    if clear_first and stray:
+        ck.violation("4", "T3-must-precede", b, "synthetic-queue-emptied-before-first-push", "the queue is read (%s at %s) on a path that does not pass the site that discards the leftovers of a failed dispatch: a stale synthetic event is delivered, or forces a zero timeout, in a dispatch that queued nothing" % (stray[0].name, b.where(stray[0].bb)), site=b.where(clear_first[0].bb))
+    elif clear_first:
         ck.ok("4", "T3-must-precede", b, "synthetic-queue-emptied-before-first-push", "the queue is emptied on a site that dominates every push of the dispatch (leftovers of a failed dispatch are discarded)", site=b.where(clear_first[0].bb))
     else:
         worst = None
